@@ -6,7 +6,7 @@ from scen import payload
 
 FILES = ['theories/Base.v', 'theories/gen/Codec.v', 'theories/gen/Tp21Gen.v', 'theories/gen/CaGen.v', 'theories/gen/Tp22Gen.v', 'theories/CodecGlue.v',
          'theories/Model21.v', 'theories/Model22.v', 'theories/Replay21.v', 'theories/Replay22.v', 'proofs/CodecProofs.v', 'proofs/Flat.v',
-         'proofs/Tp21Seg.v', 'proofs/Tp21Resp.v', 'proofs/Tp21Orig.v', 'proofs/TimeoutProofs.v', 'proofs/MpgProofs.v', 'proofs/PoolProofs.v']
+         'proofs/Tp21Seg.v', 'proofs/Tp21Resp.v', 'proofs/Tp21Orig.v', 'proofs/TimeoutProofs.v', 'proofs/MpgProofs.v', 'proofs/PoolProofs.v', 'proofs/ConserveProofs.v']
 
 
 def gen(rng, k, dll=None):
@@ -67,6 +67,7 @@ def runner(sc):
     """scen.run with time-windowed faults"""
     import vts
     fl = sc.get('c10_faults', [])
+    t_final = sc.get('t_final', 1 << 62)      # a fault of the history never reaches into the final transfers
     sc2 = dict(sc)
     orig_transmit = vts.Sim.transmit
 
@@ -77,7 +78,7 @@ def runner(sc):
                 self.frame_counter += 1
                 self.trace.append((now, src, 'silenced', self.frame_counter))
                 return
-            if 'drop_after' in f and now >= f['drop_after'] and not f.get('done'):
+            if 'drop_after' in f and f['drop_after'] <= now < min(f['drop_after'] + 4_000_000, t_final) and not f.get('done'):
                 f['cnt'] = f.get('cnt', 0) + 1
                 if f['cnt'] == f['nth']:
                     f['done'] = True
